@@ -16,7 +16,8 @@ import (
 // ---------- C13: downlink data notifications reach the control plane once per interval ----------
 
 type c13Case struct {
-	Kinds  []string `json:"kinds"`  // per session: "nocp" | "buff" | "forw" | "drop" | "nodl"
+	UP4    bool     `json:"up4,omitempty"` // reports arrive as P4Runtime digests carrying the UE address
+	Kinds  []string `json:"kinds"`         // per session: "nocp" | "buff" | "forw" | "drop" | "nodl"
 	Events []int    `json:"events"` // sequence of targets: session index, -1 unknown F-SEID, -2 zero
 	CPSEID []uint64 `json:"cpseid"`
 }
@@ -24,8 +25,13 @@ type c13Case struct {
 func genC13(t *rapid.T) c13Case {
 	n := rapid.IntRange(1, scale(8, 20)).Draw(t, "nsess")
 	var c c13Case
+	c.UP4 = rapid.IntRange(0, 2).Draw(t, "up4") == 0
 	for i := 0; i < n; i++ {
-		c.Kinds = append(c.Kinds, rapid.SampledFrom([]string{"nocp", "nocp", "buff", "forw", "drop", "nodl"}).Draw(t, "kind"))
+		k := rapid.SampledFrom([]string{"nocp", "nocp", "buff", "forw", "drop", "nodl"}).Draw(t, "kind")
+		if c.UP4 && k == "nodl" {
+			k = "drop" // the UP4 plug-in needs a downlink PDR in every session
+		}
+		c.Kinds = append(c.Kinds, k)
 		cp := genSEID(t)
 		for dupIn(c.CPSEID, cp) {
 			cp += 0x101
@@ -44,15 +50,17 @@ func genC13(t *rapid.T) c13Case {
 }
 
 func runC13(c c13Case, ev *Ev) error {
-	r, err := newRig(RigOpts{Notify: true})
+	r, err := newRig(RigOpts{Notify: !c.UP4, UP4: c.UP4})
 	if err != nil {
 		return fmt.Errorf("INFRA: %v", err)
 	}
-	defer func() {
-		r.Notify.Close()
-	}()
-	if !r.Notify.WaitConn(5 * time.Second) {
-		return fmt.Errorf("INFRA: agent never connected to the notify socket")
+	if !c.UP4 {
+		defer func() {
+			r.Notify.Close()
+		}()
+		if !r.Notify.WaitConn(5 * time.Second) {
+			return fmt.Errorf("INFRA: agent never connected to the notify socket")
+		}
 	}
 	run, err := r.newRunner(1)
 	if err != nil {
@@ -100,6 +108,20 @@ func runC13(c c13Case, ev *Ev) error {
 	p := run.Peers[0].P
 	p.Drain()
 	for _, e := range c.Events {
+		if c.UP4 {
+			// a digest carries the UE address the buffered packet was for
+			ue := uint32(0)
+			switch {
+			case e >= 0:
+				ue = model.IP2U(fmt.Sprintf("10.62.%d.%d", e/250, e%250+1))
+			case e == -1:
+				ue = model.IP2U("10.99.99.99")
+			}
+			if r.P4.InjectDigest(ue) == 0 {
+				return fmt.Errorf("INFRA: no P4Runtime stream to send a digest on")
+			}
+			continue
+		}
 		var fseid uint64
 		switch {
 		case e >= 0:
@@ -191,6 +213,7 @@ func runC13(c c13Case, ev *Ev) error {
 			multi = true
 		}
 	}
+	ev.Label(fmt.Sprintf("up4=%v", c.UP4))
 	ev.Case(c, len(kinds) >= 3 && multi, len(c.Events))
 	return nil
 }
@@ -206,7 +229,7 @@ func dupIn(cp []uint64, v uint64) bool {
 
 func TestC13(t *testing.T) {
 	ev := newEv("C13")
-	ev.Rule = "fresh agent per case (BESS, enable_notify_bess, harness unixpacket listener in place of notifyCP), 1-20 sessions of kinds {BUFF|NOCP, BUFF, FORW, DROP, no downlink PDR}, a generated sequence of 8-byte little-endian F-SEID reports in bursts over known, unknown and zero F-SEIDs; the Session Report Requests at the peer socket are decoded and counted per session; non-trivial = reports for >=3 kinds of sessions and >=2 reports for one notifying session; distinct by case"
+	ev.Rule = "fresh agent per case on BESS (enable_notify_bess, harness unixpacket listener in place of notifyCP; 8-byte little-endian F-SEID reports) or UP4 (every third case; P4Runtime digests carrying UE addresses on the harness switch's stream), 1-20 sessions of kinds {BUFF|NOCP, BUFF, FORW, DROP, no downlink PDR}, a generated sequence of reports in bursts over known, unknown and zero F-SEIDs / UE addresses; the Session Report Requests at the peer socket are decoded and counted per session; non-trivial = reports for >=3 kinds of sessions and >=2 reports for one notifying session; distinct by case"
 	ev.Assume = []string{"one association, as the statement says", "the hard-coded 20 s interval is not crossed in the wire unit; interval expiry is exercised at unit level with a 60 ms interval"}
 	runProp(t, ev, "wire", true, genC13, runC13)
 }
